@@ -37,7 +37,7 @@ var lpInputs = map[string]string{
 	"lp_newline_in_field": "m1,t1=a f1=1i,f2=\"line one\nline two\",ts=\"2021-03-04 05:06:07\",message=\"lpmsg\" 1600000000000000000\nm2,t9=z f9=9i 1600000001000000000\n",
 }
 
-func isText(in string) bool { return in == "text" || in == "text_multiline" }
+func isText(in string) bool { return strings.HasPrefix(in, "text") }
 
 func isLP(in string) bool { _, ok := lpInputs[in]; return ok }
 
@@ -250,6 +250,10 @@ func replayCli(args []string) (any, error) {
 			data = []byte("hello cli world")
 		case "text_multiline":
 			data = []byte("  first line \n\nthird line\twith a tab\n")
+		case "text_empty": // an empty file is a text input like any other: message = ""
+			data = []byte{}
+		case "text_blank":
+			data = []byte(" \n")
 		default:
 			if isLP(v.Cfg.Input) {
 				data = []byte(lpInputs[v.Cfg.Input])
